@@ -697,6 +697,7 @@ theorem proj_op (h : Handlers D) (binOk : Bool) (hs : Stock h binOk) (w : W) (d 
   | raiseStatus s => rfl
   | raiseExc => rfl
   | raiseBoom => rfl
+  | raiseOf e => rfl
 
 /-! the client script only ever shrinks from the front, so it stays well-formed -/
 
@@ -801,6 +802,7 @@ theorem op_inbox_sub (h : Handlers D) (w : W) (d : Option Int) (o : Op D) : ∀ 
   | raiseStatus s => exact fun e he => he
   | raiseExc => exact fun e he => he
   | raiseBoom => exact fun e he => he
+  | raiseOf e => exact fun e he => he
 
 theorem InboxWf.op {h : Handlers D} {w : W} (hwf : InboxWf w) (d : Option Int) (o : Op D) : InboxWf (w.op h d o).1 :=
   fun e he => hwf e (op_inbox_sub h w d o e he)
